@@ -37,6 +37,14 @@ UNITS.append(dict(name="c02_propagateWhileValid_unbounded", template="C02/propag
                   functions=["ompl::control::SpaceInformation::propagateWhileValid(state, control, steps, result)"], confirm=dict(unwind=6, defines={}),
                   canaries=[dict(name="reports_requested_steps", where="body:pwv", rx=r"r = i;", repl="r = i + 1;"), dict(name="temp_not_freed", where="body:pwv", rx=r"freeState\(toDelete\);", repl="")]))
 
+PWVV = dict(name="pwv_vec", file=CSI, sig=r"unsigned int ompl::control::SpaceInformation::propagateWhileValid\(const base::State \*state, const Control \*control,\s*int steps, std::vector<base::State \*> &result,\s*bool alloc\) const",
+            loops={"allow_uncontracted": True},
+            rules=[(r"statePropagator_->propagate\(", "propagate(", 0), (r"result\.resize\(([^;]+)\);", r"RESIZE(result_p, (unsigned)(\1));", 0), (r"result\.empty\(\)", "(result_p->n == 0)", 0), (r"\(int\)result\.size\(\)", "(int)result_p->n", 0),
+                   (r"std::min\(", "MINI(", 0), (r"result\[([^\]]+)\]", r"result_p->v[\1]", 0)])
+UNITS.append(dict(name="c02_propagateWhileValid_vector", template="C02/propagate_vec.c", mode="plain", entry="h_pwv_vec", sources=[PWVV], flags=D.PFLAGS, unwind=14, level="bounded", bound="|steps| <= 4", backend="cadical", timeout=600,
+                  functions=["ompl::control::SpaceInformation::propagateWhileValid(state, control, steps, result vector, alloc)"],
+                  canaries=[dict(name="invalid_state_left_in_the_vector", where="body:pwv_vec", rx=r"freeState\(result_p->v\[st\]\);\s*RESIZE\(result_p, \(unsigned\)\(st\)\);\s*\}\s*break;", repl="freeState(result_p->v[st]); } break;")]))
+
 # control sampler: RealVector-style per-coordinate loop, ghost coordinate (unbounded, dimension <= 64)
 CS = dict(name="ctrl_sample", file=RVC, sig=r"void ompl::control::RealVectorControlUniformSampler::sample\(Control \*control\)",
           rules=[(r"const unsigned int dim = space_->getDimension\(\);", "const unsigned int dim = dimension_;", 0),
@@ -209,7 +217,7 @@ ASSUMPTIONS = ["the user's state propagator and validity checker are determinist
                "planner fragments: motions/states/controls are references with ghost content ids; the goal, samplers and propagators are arbitrary"]
 TRUSTED = ["extraction rewrite tables of units/C02.py", "stubs/harness code in units/C02/*.c", "CBMC 6.11"]
 NOT_COVERED = ["control planners other than RRT (loop body + path construction), SST (solution record + path construction), PDST (flag logic, findDurationAndAncestor) and Syclop (solution record + report): EST, KPIECE, LTL; their PathControl assembly and approximate marking",
-               "control::RRT: the start-state loop and the contracts assumed for DirectedControlSampler::sampleTo and the vector overload of propagateWhileValid (they RECORD what they propagated; that the record is true is the C02 unit on propagateWhileValid/getBestControl for the scalar overload only)",
+               "control::RRT: the start-state loop and the contracts assumed for DirectedControlSampler::sampleTo and the vector overload of propagateWhileValid (they RECORD what they propagated; that the record is true is what the units on propagateWhileValid -- scalar form unbounded, vector form bounded -- and getBestControl establish)",
                "PathControl::asGeometric / append / random; in check() and interpolate() the rounding floor(0.5 + duration / stepSize) is behind a recording stub (that both functions use the SAME rounding is what is proved)"]
 
 MISC_CPPS = ['src/ompl/control/src/SpaceInformation.cpp', 'src/ompl/control/src/SimpleDirectedControlSampler.cpp', 'src/ompl/control/spaces/src/RealVectorControlSpace.cpp']
